@@ -638,6 +638,73 @@ func openFlags() sepFlags {
 	return sepFlags{strict: shadowExcluded(), symbolLevel: evid.R.KnownOpen(findingLiveness)}
 }
 
+const findingAggregate = "C06-aggregate-count-alias-column"
+
+var aggregateAliasCache = map[string]string{}
+
+// aggregateCountAlias returns the count alias of a query to which the aggregate-traversal-count lowering
+// applies ("" otherwise), as reported by the translation itself.
+func aggregateCountAlias(text string) string {
+	if a, ok := aggregateAliasCache[text]; ok {
+		return a
+	}
+	alias := ""
+	low := strings.ToLower(text)
+	if strings.Contains(low, "count(") && strings.Contains(low, "order by") && strings.Contains(low, "limit") {
+		if q, err := xlate.Parse(text); err == nil {
+			if res, err := translateNamed(q, nil); err == nil {
+				applied := false
+				for _, l := range res.Raw.Optimization.Lowerings {
+					if l.Name == "AggregateTraversalCount" {
+						applied = true
+					}
+				}
+				if plan := res.Raw.Optimization.LoweringPlan; applied && plan != nil && len(plan.AggregateTraversalCount) > 0 {
+					alias = plan.AggregateTraversalCount[0].CountAlias
+				}
+			}
+		}
+	}
+	if len(aggregateAliasCache) < 50000 {
+		aggregateAliasCache[text] = alias
+	}
+	return alias
+}
+
+// pinAggregateCountAlias: while the finding is listed as open, the count alias of a query that takes the
+// aggregate-traversal-count lowering keeps its spelling (that alias is emitted as a CTE column name, so any
+// renaming of it changes tokens outside the result-column positions). Nothing else of the query is excluded.
+func pinAggregateCountAlias(text string, an *analysis, names []string) (changed bool) {
+	if !evid.R.KnownOpen(findingAggregate) {
+		return false
+	}
+	alias := aggregateCountAlias(text)
+	if alias == "" {
+		return false
+	}
+	for i, c := range an.classes {
+		if (c.Kind == kAlias || c.Kind == kRAlias) && c.Orig == alias && names[i] != c.Orig {
+			names[i] = c.Orig
+			changed = true
+		}
+	}
+	if changed {
+		// another class may have taken the spelling meanwhile: it gets a fresh name (the pinned class has
+		// the lower priority in repair only if it comes later, so move clashing classes explicitly)
+		conf := an.conflicts(openFlags())
+		for i, c := range an.classes {
+			if (c.Kind == kAlias || c.Kind == kRAlias) && c.Orig == alias {
+				for j := range conf[i] {
+					if names[j] == names[i] {
+						names[j] = fmt.Sprintf("r%d_%s", j, an.classes[j].Orig)
+					}
+				}
+			}
+		}
+	}
+	return changed
+}
+
 // avoidOrderByHazard: while the ORDER BY finding is listed as open, result columns of a query whose final
 // projection is ordered get neither reserved words nor names that differ only by case.
 func avoidOrderByHazard(an *analysis, names []string) (changed bool) {
@@ -746,7 +813,7 @@ func repair(an *analysis, names []string, f sepFlags) {
 
 var howTable = []string{"keep", "generated", "internal", "keyword", "collide", "keep", "generated", "internal", "case", "benign", "collide", "keyword"}
 
-func genNames(t *rapid.T, an *analysis) []string {
+func genNames(t *rapid.T, an *analysis, text string) []string {
 	p := getPools()
 	names := an.origNames()
 	f := openFlags()
@@ -790,7 +857,10 @@ func genNames(t *rapid.T, an *analysis) []string {
 		repair(an, names, f)
 	}
 	if avoidOrderByHazard(an, names) {
-		evid.R.Excluded("renaming")
+		evid.R.Excluded("renaming:order-by-hazard")
+	}
+	if pinAggregateCountAlias(text, an, names) {
+		evid.R.Excluded("renaming:aggregate-count-alias")
 	}
 	return names
 }
@@ -810,7 +880,7 @@ func genCorpus(t *rapid.T) Case {
 	text := qs[rapid.IntRange(0, len(qs)-1).Draw(t, "query")]
 	q, _ := xlate.Parse(text)
 	an, _ := analyse(q)
-	return Case{Src: "corpus", Query: text, Names: sparse(an, genNames(t, an))}
+	return Case{Src: "corpus", Query: text, Names: sparse(an, genNames(t, an, text))}
 }
 
 func TestC06Corpus(t *testing.T) {
@@ -818,7 +888,7 @@ func TestC06Corpus(t *testing.T) {
 }
 
 // sweep: systematic hostile renamings of every translatable shipped query.
-func sweepNames(an *analysis, mode int) []string {
+func sweepNames(an *analysis, mode int, text string) []string {
 	p := getPools()
 	names := an.origNames()
 	n := len(an.classes)
@@ -892,7 +962,10 @@ func sweepNames(an *analysis, mode int) []string {
 		repair(an, names, f)
 	}
 	if avoidOrderByHazard(an, names) {
-		evid.R.Excluded("sweep")
+		evid.R.Excluded("sweep:order-by-hazard")
+	}
+	if pinAggregateCountAlias(text, an, names) {
+		evid.R.Excluded("sweep:aggregate-count-alias")
 	}
 	return names
 }
@@ -906,7 +979,7 @@ func TestC06Sweep(t *testing.T) {
 		q, _ := xlate.Parse(text)
 		an, _ := analyse(q)
 		for mode := 0; mode < 5; mode++ {
-			c := Case{Src: "sweep", Query: text, Names: sparse(an, sweepNames(an, mode)), Note: fmt.Sprintf("mode %d", mode)}
+			c := Case{Src: "sweep", Query: text, Names: sparse(an, sweepNames(an, mode, text)), Note: fmt.Sprintf("mode %d", mode)}
 			if !evid.Case(t, "sweep", c, oracle) {
 				return
 			}
